@@ -86,11 +86,8 @@ Print Assumptions C03_inittoken_refused_with_session.
 Theorem C03_login_chain_is_code : forall (s : state) (h : N) (x : session) (t : token) (utype : N) (p : bytes),
   st_init s = true -> get_session s h = Some x -> alookup (s_tok x) (st_tokens s) = Some t ->
   rv_of (snd (step s (OLogin h utype (Some p)))) =
-  Some (C_Login.app (C_Login.mk (fun _ => 1)
-          (fun _ => if existsb (fun q => (s_tok (snd q) =? s_tok x) && negb (s_rw (snd q))) (st_sessions s) then 1 else 0)
-          0 0 1 1
-          (fun _ => Token_loginSO.app (token_loginso_env t p)) (fun _ => Token_loginUser.app (token_loginuser_env t p))
-          (fun _ => 0) h utype 1 (blen p))).
+  Some (C_Login.app (login_env_with s h x utype 1 (blen p)
+          (fun _ => Token_loginSO.app (token_loginso_env t p)) (fun _ => Token_loginUser.app (token_loginuser_env t p)))).
 Proof. exact login_chain_is_code. Qed.
 Print Assumptions C03_login_chain_is_code.
 Theorem C03_opensession_model_is_code : forall (s : state) (k flags : N) (lr : bool),
